@@ -6,7 +6,7 @@ N_QUICK = 1600
 N_THOROUGH = 30000
 SHARD = 60
 SHRINK_KEYS = ["steps"]
-RULE = ("random edit histories (1-25 calls quick, 1-60 thorough; 2-7 labels mixing ints, strings and tuples; dyadic biases) of a BQM "
+RULE = ("random edit histories (1-25 calls quick, 1-60 thorough; 2-7 labels mixing ints, strings and tuples, in a quarter of the histories some int labels passed as numpy integers (those histories have no tuple labels, open finding d8); dyadic biases) of a BQM "
         "run in lock-step on the float64, float32 and object-dtype back-ends (70 %) or of a QM (30 %): add/set/remove linear and "
         "quadratic biases, *_from loops, add_linear_from_array, add_quadratic_from_dense (range labelled, zero diagonal, no growth), "
         "remove_variable (named / pop), contract, flip, fix, relabel (partial, swap, cycle, conflicting; inplace or copy), "
